@@ -209,7 +209,7 @@ class C12(Check):
         self.stats[k] = self.stats.get(k, 0) + n
 
     def budget(self, tier, escalated):
-        n = 1500 if tier == 'quick' else 60000
+        n = 3000 if tier == 'quick' else 60000
         return n * (3 if escalated and tier == 'quick' else 1)
 
     def nontrivial(self, sample):
